@@ -23,6 +23,7 @@ fn main() {
         match id {
             "C01" | "C02" | "C04" | "C05" | "C08" | "C16" => mc::checks::wscheck::replay(&v["case"]),
             "C06" => mc::checks::c06::replay(&v["case"]),
+            "C07" => mc::checks::c07::replay(&v["case"]),
             "C09" => mc::checks::c09::replay(&v["case"]),
             "C10" => mc::checks::c10::replay(&v["case"]),
             "C12" => mc::checks::c12::replay(&v["case"]),
@@ -40,6 +41,7 @@ fn main() {
         "C04" => mc::checks::c04::run(rep),
         "C05" => mc::checks::c05::run(rep),
         "C06" => mc::checks::c06::run(rep),
+        "C07" => mc::checks::c07::run(rep),
         "C16" => mc::checks::c16::run(rep),
         "C08" => mc::checks::c08::run(rep),
         "C09" => mc::checks::c09::run(rep),
